@@ -390,14 +390,23 @@ class Render:
         return pre + f'{p}("a"));', [self.node({"k": "macro"}, None, [n])], None
 
 
-def render_file(struct, flip):
+IMPORT_VARIANTS = [
+    (["use std::fs;", "use std::thread;", "use std::net::TcpStream;"], []),
+    (["use tokio::fs;", "use std::thread;", "use std::net::TcpStream;"], ["fs"]),
+    (["use std::fs;", "use std::thread;", "use tokio::net::TcpStream;"], ["TcpStream"]),
+    (["use tokio::{fs, net};", "use std::thread;", "pub use async_std::net::UdpSocket as Udp;"], ["fs", "net", "Udp"]),
+    (["use std::{fs, thread};", "use std::net::{TcpStream, UdpSocket};"], []),
+]
+
+
+def render_file(struct, flip, variant=0):
     r = Render(flip)
-    r.emit(0, "use std::fs;")
-    r.emit(0, "use std::thread;")
-    r.emit(0, "use std::net::TcpStream;")
+    for ln in IMPORT_VARIANTS[variant][0]:
+        r.emit(0, ln)
     ch = r.items(0, struct)
     root = r.node(None, None, ch)
-    return "\n".join(r.lines) + "\n", root, r.pos, r.stats
+    r.stats["imports_variant_%d" % variant] = 1
+    return "\n".join(r.lines) + "\n", root, r.pos, r.stats, IMPORT_VARIANTS[variant][1]
 
 
 def gen_project(rng, alphabet):
@@ -469,8 +478,8 @@ def expected(drv, rendered, cfg):
     """model / spec / pre-repair reports per linter for one project"""
     exp = {k: {lt: [] for lt in LINTERS} for k in ("impl", "spec", "old")}
     meta = {"notPlain": 0, "macroSites": [], "sites": 0, "inTest": 0}
-    for rel, (text, tree, pos, _stats) in rendered.items():
-        m = drv.call({"prop": PROP, "cfg": cfg, "tree": tree})
+    for rel, (text, tree, pos, _stats, shadowed) in rendered.items():
+        m = drv.call({"prop": PROP, "cfg": dict(cfg, shadowed=shadowed), "tree": tree})
         for kind in ("impl", "spec", "old"):
             for nid, rule in m[kind]:
                 line, col = pos[nid]
@@ -500,7 +509,8 @@ def run(tier: str, seed: int, st: core.ProofStatus) -> core.Result:
     projects = [gen_project(rng, alphabet) for _ in range(n)]
     rendered_all = []
     for files, cfg, spell in projects:
-        rendered_all.append({rel: render_file(struct, flip) for rel, (struct, flip) in files.items()})
+        variant = rng.choice([0, 0, 0, 1, 2, 3, 4])          # one import style per project: twin files keep identical byte layout
+        rendered_all.append({rel: render_file(struct, flip, variant) for rel, (struct, flip) in files.items()})
     root = core.scratch_dir("c17")
     try:
         impls = core.pmap(impl_case, [(i, {rel: r[0] for rel, r in rd.items()}, yaml_of(p[1], p[2]), str(root)) for i, (p, rd) in enumerate(zip(projects, rendered_all))],
